@@ -405,7 +405,13 @@ func (e *fakeEH) AfterRebalanceEnd()    { e.rec("ARE") }
 func (e *fakeEH) BeforeStreamStart()    { e.rec("BSS") }
 func (e *fakeEH) AfterStreamStart()     { e.rec("ASS") }
 func (e *fakeEH) BeforeStreamStop()     { e.rec("BSP") }
-func (e *fakeEH) AfterStreamStop()      { e.rec("ASP") }
+// AfterStreamStop is the last callback before Close tests `streamFinishedWithEndEventCh`: yielding here lets the
+// wait() goroutine consume its token first (the WaitPrompt assumption of the life-cycle model; without it the
+// stale-token races of finding F16 make a later wait() close stopCh twice and kill the harness under CPU load)
+func (e *fakeEH) AfterStreamStop() {
+	e.rec("ASP")
+	time.Sleep(2 * time.Millisecond)
+}
 func (e *fakeEH) take() []string {
 	e.mu.Lock()
 	defer e.mu.Unlock()
